@@ -5,7 +5,7 @@ declaration (nearest, ties away), of the scale table and of the big-integer arit
 enumerates the pools of rounding-critical coordinates for both scale families x precisions -8..8; (3) the harness
 (fam_c16.cpp) drives every PathsD entry point and its integer counterpart on pool-built and seeded random dyadic
 inputs and records one Call event per pair; (4) C16Trace.tla decides every call."""
-import json, os
+import json, os, shutil
 from . import core
 
 RULE = ("every PathsD entry point (ClipperD paths/PolyTreeD incl. open subjects, BooleanOp paths/PolyTreeD, Union, InflatePaths, RectClip, "
@@ -65,6 +65,7 @@ def replay_rec(rec):
     exe = core.build(rec.get("variant", "plain"), fams=("c16",))
     _harness(exe, {"fam": "cases", "in": inf}, out)
     _, fails, _, hfails = _judge([out], {out: rec.get("variant", "plain")})
+    shutil.rmtree(work, ignore_errors=True)
     if hfails:
         raise core.ModelFailure("replay: harness-side failure " + json.dumps(hfails[0])[:500])
     return any(f["prop"] == rec["prop"] and f["clause"] == rec["clause"] for f in fails)
@@ -87,9 +88,9 @@ def run(ctx):
     jobs = []
     ngen, nrand = (8, 8) if q else (16, 16)
     for k in range(ngen):
-        jobs.append(("gen", variants[k % len(variants)], {"fam": "gen", "in": gen, "skip": k % 8, "stride": 8, "n": 10 if q else 70, "seed": s * 1000 + k}))
+        jobs.append(("gen", variants[k % len(variants)], {"fam": "gen", "in": gen, "skip": k % 8, "stride": 8, "n": 14 if q else 70, "seed": s * 1000 + k}))
     for k in range(nrand):
-        jobs.append(("rand", variants[k % len(variants)], {"fam": "rand", "n": 500 if q else 4000, "seed": s * 1000 + 100 + k}))
+        jobs.append(("rand", variants[k % len(variants)], {"fam": "rand", "n": 700 if q else 4000, "seed": s * 1000 + 100 + k}))
     files, variant_of = [], {}
     def one(j):
         i, (kind, variant, args) = j
